@@ -64,7 +64,7 @@ def constants():
     txt += "/-- the parameters of `build_psbt`, in order -/\n"
     txt += "def BUILD_PSBT_PARAMS : List String := [" + ", ".join(
         f'"{n}"' for n in inspect.signature(tx_builder.build_psbt).parameters) + "]\n"
-    return txt + txt_pks
+    return txt + txt_pks + _solution_sizes_lean()
 
 
 def _pub_key_size_lean():
@@ -94,6 +94,62 @@ def _pub_key_size_lean():
             "  match hd_key_paths.find? (fun pub_key => hash160 pub_key == payload) with\n"
             "  | some pub_key => Btc.Py.len pub_key\n"
             "  | none => COMPRESSED_PUB_KEY_SIZE\n")
+
+
+def _solution_sizes_lean():
+    """`psbt_size._solution_sizes` answers lists per script-type string, which pyfun2lean does not translate; its body is
+    compared (AST, docstring and comments aside) with the shape the hand model `Btc.C18.solutionSizes` mirrors, and the
+    one piece of arithmetic in it -- the threshold read off OP_m -- is emitted from the source expression itself.
+    Any other body is a broken tie (raised here), never a silent pass."""
+    import ast
+    import inspect
+    import textwrap
+    fn = ast.parse(textwrap.dedent(inspect.getsource(psbt_size._solution_sizes))).body[0]
+    body = [n for n in fn.body if not (isinstance(n, ast.Expr) and isinstance(n.value, ast.Constant))]
+    m_expr = None
+    for node in ast.walk(fn):
+        if isinstance(node, ast.Assign) and [ast.unparse(t) for t in node.targets] == ["m"]:
+            m_expr = node.value
+    if m_expr is None:
+        raise ValueError("psbt_size._solution_sizes: no `m = …` assignment")
+    want = ast.parse(textwrap.dedent("""
+        if script_type == "p2pkh":
+            return [SIG_SIZE, _pub_key_size(psbt_in, payload)]
+        if script_type == "p2pk":
+            return [SIG_SIZE]
+        if script_type == "p2wpkh":
+            return [SIG_SIZE, COMPRESSED_PUB_KEY_SIZE]
+        if script_type == "p2ms":
+            m = M_EXPR
+            return [0, *[SIG_SIZE] * m]
+        return None
+    """).replace("M_EXPR", ast.unparse(m_expr))).body
+    if [ast.dump(n) for n in body] != [ast.dump(n) for n in want] or \
+            [a.arg for a in fn.args.args] != ["script_type", "payload", "psbt_in"]:
+        raise ValueError("psbt_size._solution_sizes is no longer the per-type table the model mirrors")
+    # the threshold: an integer expression over payload[0] and module constants
+    names = {n.id for n in ast.walk(m_expr) if isinstance(n, ast.Name)}
+    if not names <= {"payload", "_OP_INT_OFFSET"}:
+        raise ValueError(f"psbt_size._solution_sizes: threshold reads {sorted(names)}")
+    ops = {ast.Sub: "-", ast.Add: "+", ast.BitAnd: "&&&", ast.Mod: "%", ast.Mult: "*"}
+
+    def tr(e):
+        if isinstance(e, ast.BinOp) and type(e.op) in ops:
+            if isinstance(e.op, ast.BitAnd):
+                return f"(Int.ofNat (({tr(e.left)}).toNat &&& ({tr(e.right)}).toNat))"
+            if isinstance(e.op, ast.Mod):
+                return f"(({tr(e.left)}) % ({tr(e.right)}))"
+            return f"(({tr(e.left)}) {ops[type(e.op)]} ({tr(e.right)}))"
+        if isinstance(e, ast.Subscript) and ast.unparse(e) == "payload[0]":
+            return "payload0"
+        if isinstance(e, ast.Name) and e.id == "_OP_INT_OFFSET":
+            return "OP_INT_OFFSET"
+        if isinstance(e, ast.Constant) and isinstance(e.value, int) and not isinstance(e.value, bool):
+            return f"({e.value} : Int)"
+        raise ValueError(f"psbt_size._solution_sizes: threshold expression not translated: {ast.unparse(e)}")
+    return ("/-- translated from the `m = …` line of `btclib.psbt.psbt_size._solution_sizes` (`payload0` = `payload[0]`, a byte);\n"
+            "    the rest of that function is compared with the per-type table the model mirrors -/\n"
+            f"def p2ms_threshold (payload0 : Int) : Int := {tr(m_expr)}\n")
 
 
 # ----------------------------------------------------------------- argument generators
